@@ -3,6 +3,7 @@ mutable object with an argument.  No `gc`: a bounded recursive walk over `__dict
 mappings, object-dtype arrays and object fields of structured arrays, cycle-safe by identity."""
 import enum
 import inspect
+import re
 import types
 from pathlib import PurePath
 from xml.etree import ElementTree
@@ -10,7 +11,7 @@ from xml.etree import ElementTree
 import numpy as np
 
 IMMUTABLE = (str, bytes, int, float, complex, bool, type(None), PurePath, np.generic, range, slice, type(Ellipsis),
-             np.dtype, frozenset, enum.Enum)
+             np.dtype, frozenset, enum.Enum, re.Pattern, re.Match)
 OPAQUE = (types.ModuleType, types.FunctionType, types.BuiltinFunctionType, types.MethodType, type, np.ufunc)
 
 
@@ -114,3 +115,62 @@ def shares(result, arg):
             if isinstance(a, (bytearray, memoryview)) and r.size and np.shares_memory(r, np.frombuffer(a, dtype=np.uint8)):
                 return "memory"
     return None
+
+
+def inner_snapshot(o):
+    """{id: (object, content snapshot)} of every array and every mutable builtin container (list, dict, set, bytearray)
+    reachable from o — the things the property protects — keyed by identity, so that REBINDING an attribute of a custom
+    object to a new array is not a change of any of them, while writing INTO one of them is"""
+    arrays, objs = reachable(o)
+    out = {}
+    for a in arrays:
+        out[id(a)] = (a, snap(a))
+    for x in objs.values():
+        if isinstance(x, (list, dict, set, bytearray)):
+            out[id(x)] = (x, snap(x, depth=5))  # its own slots; nested containers / arrays have their own entries
+    return out
+
+
+def inner_changed(before) -> bool:
+    for obj, old in before.values():
+        new = snap(obj) if isinstance(obj, np.ndarray) else snap(obj, depth=5)
+        if new != old:
+            return True
+    return False
+
+
+PLAIN = (np.ndarray, str, bytes, int, float, complex, bool, type(None), PurePath, np.generic, np.dtype, re.Pattern, re.Match,
+         type, range, slice)
+
+
+def is_plain(v) -> bool:
+    """a value that holds no references: what the translator's `arr` fact claims"""
+    if isinstance(v, np.ndarray):
+        return not v.dtype.hasobject
+    if isinstance(v, (tuple, frozenset)):
+        return all(is_plain(x) for x in v)  # an immutable shell of plain values
+    return isinstance(v, PLAIN) or hasattr(v, "read") and hasattr(v, "seek")  # an open file holds no caller data
+
+
+def conforms(v, t, classes) -> bool:
+    """value v is what annotation type t (translate.annotation_type) claims; `classes`: key -> the imported class"""
+    if t is None:
+        return True
+    if t == "arr":
+        return is_plain(v)
+    if isinstance(t, tuple) and t[0] == "cls":
+        c = classes(t[1])
+        return c is None or v is None or isinstance(v, c)
+    if isinstance(t, tuple) and t[0] == "list":
+        def plain_type(x):
+            return x == "arr" or (isinstance(x, tuple) and x[0] == "list" and plain_type(x[1]))
+        if v is None or (plain_type(t) and is_plain(v)):
+            return True  # a plain value where a container of plain values is claimed holds no references either
+        if isinstance(v, dict):  # keys are hashable: plain values or tuples of such
+            def key_ok(k):
+                return is_plain(k) or (isinstance(k, (tuple, frozenset)) and all(key_ok(x) for x in k))
+            return all(key_ok(k) for k in v) and all(conforms(x, t[1], classes) for x in v.values())
+        if isinstance(v, (list, tuple, set, frozenset, range)) or hasattr(v, "__next__"):
+            return hasattr(v, "__next__") or all(conforms(x, t[1], classes) for x in v)
+        return False
+    return True
